@@ -23,7 +23,7 @@ ASSUMPTIONS = [
     "soft-edge band tolerance 1.5e-3: the blur is a separable Gaussian truncated at 4 sigma per axis, mass outside the sphere of radius 4 sigma+1 is bounded by P(chi2_3 > 16) = 1.13e-3",
     "monotonicity is checked along the 290 primitive lattice rays with components in -3..3 from the zero frequency to the box faces (slack 1e-9); the design-phase suspicion of a non-monotone gain next to box faces did not reproduce along any ray (it compared voxels of different directions) and is not a finding",
 ]
-BUDGET = {"quick": {"examples": 2500, "seconds": 75}, "thorough": {"examples": 1500, "seconds": 540}}
+BUDGET = {"quick": {"examples": 2500, "seconds": 75}, "thorough": {"examples": 4000, "seconds": 540}}
 EXHAUSTIVE = "every integer frequency vector of an 8x9x10 box as a plane wave through hard-edge lowpass/highpass (720 waves x 2 cutoffs)"
 
 dim = st.one_of(st.integers(8, 48), st.integers(8, 20), st.sampled_from([8, 9, 15, 16, 21, 32]))
